@@ -889,6 +889,21 @@ fn dump<'tcx>(tcx: TyCtxt<'tcx>) -> J {
                 gv.push(J::Str(format!("{}:{:?}", p.name, std::mem::discriminant(&p.kind))));
             }
             o.set("generics", J::Arr(gv));
+            // all generic parameter names in argument order (parents first)
+            let mut names: Vec<String> = vec![];
+            let mut chain = vec![];
+            let mut cur = Some(did);
+            while let Some(d) = cur {
+                let gg = tcx.generics_of(d);
+                chain.push(gg);
+                cur = gg.parent;
+            }
+            for gg in chain.iter().rev() {
+                for p in gg.own_params.iter() {
+                    names.push(p.name.to_string());
+                }
+            }
+            o.set("all_generics", J::Arr(names.into_iter().map(J::Str).collect()));
             o.set("n_parent_generics", J::Num(g.parent_count as i128));
         } else {
             o.set("ty", J::Str(tys(tcx.type_of(did).instantiate_identity().skip_norm_wip())));
